@@ -8,7 +8,7 @@ W=/tmp/seed/$P; S=$W/_seed/$N
 export GOFLAGS=-mod=mod GOPROXY=off
 cd $W || exit 2
 git checkout -q -- . ; git clean -fdq -e _seed
-demos=$(ls $S | grep -v -e patch.diff -e demo.md -e meta.json)
+demos=$(ls $S | grep -v -e patch.diff -e demo.md -e meta.json -e "\.log$")
 cpdemo() { for f in $demos; do cp $S/$f $W/$DEST/; done; }
 rmdemo() { for f in $demos; do rm -f $W/$DEST/$f; done; }
 cpdemo
